@@ -152,6 +152,11 @@ Fixpoint it_snext (i : IT) (ctx : env) (its : itst) (p : nat) (r : reg) : option
   | IRepCfg a lo hi _, SCfg c clo chi =>
       match rep_snext a clo chi ctx c p r with
       | Some (x, c', r') => Some (x, SCfg c' clo chi, r') | None => None end
+  | IRepCfg _ _ _ _, SFail k =>
+      match run (TryMap PFalse FId k Empty) ctx p r with
+      | Some (None, r') => Some (SErr, its, r')
+      | _ => None
+      end
   | IEnum j, SEnum k js =>
       match it_snext j ctx js p r with
       | Some (SSome v p1 e1, js', r') => Some (SSome (VPair (VNat k) v) p1 e1, SEnum (S k) js', r')
@@ -608,6 +613,7 @@ Fixpoint sem (n : nat) (g : G) (ctx : env) (p : nat) (a : reg) {struct n} : opti
   | Pratt atom ops => pratt_sem run n' atom ops ctx 0 p a
   | GroupArr gs => group_sem run gs ctx p a [] []
   | NestedIn _ => None                          (* not part of this specification: see Model/Nested.v *)
+  | Skip k => Some (Some (VUnit, Nat.max p (Nat.min (p + k) (length toks)), []), a)
   | ExtWrap x =>
       (* an extension parser hands its failure back as a value: the pending error is re-recorded at the parser's start *)
       match run x ctx p a with
